@@ -439,6 +439,15 @@ func (e *OpEngine) Instances(name string, b Bounds) []*Call {
 							u := e.mkTensor("B", TensorArg{Dims: db, Tracked: true, Rng: rngB})
 							return []interp.Value{t, e.W.Boxed(u)}
 						}})
+					// the same pair with constant (untracked) operands: values and shapes may not depend on tracking
+					add(&Call{Fn: fn, Label: fmt.Sprintf("%s recv=%s arg=%s untracked", op, shapeStr(da), shapeStr(db)),
+						Build: func(e *OpEngine) []interp.Value {
+							e.M.Base = sizeBase(da, db)
+							e.LeafRng = []spec.Ival{rngA, rngB}
+							t := e.mkTensor("A", TensorArg{Dims: da, Rng: rngA})
+							u := e.mkTensor("B", TensorArg{Dims: db, Rng: rngB})
+							return []interp.Value{t, e.W.Boxed(u)}
+						}})
 				}
 			}
 		}
